@@ -816,7 +816,7 @@ func (g *FnGen) frameCheckFam(kind, ref string, pos token.Pos) {
 		func() {
 			defer func() { recover() }()
 			v := env.tr(c.E)
-			if _, ok := typeUnder(v.GT).(*types.Map); ok {
+			if _, ok := typeUnder(v.GT).(*types.Map); ok && v.S == "Int" {
 				alts = append(alts, fmt.Sprintf("(= %s %s)", v.T, ref))
 			}
 		}()
